@@ -7,6 +7,7 @@ from .. import core, pb, elections as E
 from .. import mesgen
 from ..core import q, lst, natl
 
+NAMING = True
 ID = "C01"
 ORACLE = "Oracle.C01"
 PROPS = ["Props/C01.v", "Props/C01mes.v"]
